@@ -560,6 +560,180 @@ def run_rpc_replay(seed: int, acc) -> int:
     return n
 
 
+class _Impostor:
+    """a peer WITHOUT any key: accepts every bind / alter_context (no token of its own) and answers a request with an unsealed response"""
+
+    STUB = b"ATTACKER-CHOSEN-GROUP-KEY-MATERIAL" + b"\x00" * 14
+
+    def __init__(self) -> None:
+        self.requests: t.List[dict] = []
+
+    def connect(self, host, port):
+        return self
+
+    def feed(self, data: bytes):
+        d = rpc.decode(data, strict=False)
+        if d["ptype"] == rpc.BIND:
+            return [rpc.enc_ack_like(rpc.BIND_ACK, 3, d["call_id"], [(0, 0, rpc.NDR64)] + [(3, 3, refdc.NIL)] * (len(d["contexts"]) - 1), None, b"49664\x00")]
+        if d["ptype"] == rpc.ALTER_CONTEXT:
+            return [rpc.enc_ack_like(rpc.ALTER_CONTEXT_RESP, 3, d["call_id"], [(0, 0, rpc.NDR64)], None, b"")]
+        if d["ptype"] == rpc.REQUEST:
+            self.requests.append(d)
+            return [rpc.enc_response(d["call_id"], d["ctx_id"], self.STUB)]
+        return [None]
+
+
+class _TwoPeers:
+    """first connection: the genuine peer; every later connection: the impostor"""
+
+    def __init__(self, genuine, impostor) -> None:
+        self.peers, self.n = (genuine, impostor), 0
+
+    def connect(self, host, port):
+        self.n += 1
+        return self.peers[0 if self.n == 1 else 1].connect(host, port)
+
+
+def run_lifecycle(seed: int, acc) -> int:
+    """objects used beyond one bind-request-close cycle. (a) the application keeps the authentication provider of a finished connection and
+    hands it to a NEW client object whose peer is an impostor; (b) a client is closed by another task while its request is in flight and the
+    reply that arrives is unsealed: in no case is the impostor's stub returned"""
+    import socket
+
+    from checks import c13
+    from dpapi_ng._rpc import AsyncRpcClient, SyncRpcClient
+    from dpapi_ng._rpc._auth import AuthenticationProvider
+
+    n = 0
+
+    class _Strict(secctx.ScriptedContext):
+        def step(self, in_token=None, *a, **k):
+            if len(self.steps) > self.complete_after:
+                import spnego.exceptions as se
+
+                raise se.InvalidTokenError(context_msg="scripted context: already established")
+            return super().step(in_token, *a, **k)
+
+    for api in ("sync", "async"):
+        for prov_kind in ("lenient", "strict"):
+            for sign in (True, False):
+                case = ["lifecycle", "provider-reuse", api, prov_kind, sign]
+                genuine, imp = c13.Peer("scripted", 16, sign, reply_stub=b"REPLY-ONE"), _Impostor()
+                net = _TwoPeers(genuine, imp)
+                cls_ = _Strict if prov_kind == "strict" else secctx.ScriptedContext
+                with transport.network(net), secctx.scripted_client(lambda u, p, **k: cls_([b"CLI1"], 16)):
+                    provider = AuthenticationProvider("u", "p", "dc", "ntlm")
+                    results: t.List[t.Any] = []
+                    try:
+                        if api == "sync":
+                            for _round in range(2):
+                                c = SyncRpcClient(socket.create_connection(("dc", 49664)), provider)
+                                try:
+                                    c.bind(contexts=c13.contexts())
+                                    results.append(bytes(c.request(0, 0, b"REQ-%d" % _round + b"\x00" * 3).stub_data))
+                                except Exception as e:  # noqa: BLE001
+                                    results.append(e)
+                                finally:
+                                    c.close()
+                        else:
+
+                            async def go():
+                                import asyncio
+
+                                for _round in range(2):
+                                    rd, wr = await asyncio.open_connection("dc", port=49664)
+                                    c = AsyncRpcClient(rd, wr, provider)
+                                    try:
+                                        await c.bind(contexts=c13.contexts())
+                                        results.append(bytes((await c.request(0, 0, b"REQ-%d" % _round + b"\x00" * 3)).stub_data))
+                                    except Exception as e:  # noqa: BLE001
+                                        results.append(e)
+                                    finally:
+                                        await c.close()
+
+                            vloop.run(go())
+                    except (transport.BlocksForever, transport.Spin, vloop.Deadlock) as e:
+                        results.append(e)
+                n += 1
+                acc.nt(tuple(case))
+                if not results or isinstance(results[0], Exception) or not results[0].startswith(b"REPLY-ONE"):
+                    acc.violate("lifecycle.genuine-exchange-failed", case, {"results": repr(results)[:200]})
+                elif len(results) > 1 and not isinstance(results[1], Exception):
+                    acc.violate("lifecycle.unsealed-reply-accepted", case, {"returned": results[1][:40].hex(), "request_left_sealed": bool(imp.requests and imp.requests[0]["auth"] is not None)})
+                else:
+                    acc.outcome("lifecycle-rejected")
+                if imp.requests and (imp.requests[0]["auth"] is None or imp.requests[0]["auth"]["level"] != 6):
+                    acc.violate("lifecycle.request-sent-unsealed", case, {"auth": repr(imp.requests[0]["auth"])[:80]})
+    # (b) close() from another task while the request waits for its reply; the reply that then arrives is the impostor's
+    from dpapi_ng._rpc import async_create_rpc_connection
+
+    for sign in (True, False):
+        for when in ("before-reply", "with-reply"):
+            case = ["lifecycle", "close-in-flight", sign, when]
+            genuine = c13.Peer("scripted", 16, sign, reply_stub=b"REPLY-ONE")
+            orig_feed = genuine.feed
+
+            def feed(data, orig_feed=orig_feed):
+                if rpc.decode(data, strict=False)["ptype"] == rpc.REQUEST:
+                    orig_feed(data)
+                    d = rpc.decode(data, strict=False)
+                    return [rpc.enc_response(d["call_id"], d["ctx_id"], _Impostor.STUB)]
+                return orig_feed(data)
+
+            genuine.feed = feed  # type: ignore[method-assign]
+            out: t.Dict[str, t.Any] = {}
+            with transport.network(genuine, defer=True) as hub, secctx.scripted_client(lambda u, p, **k: secctx.ScriptedContext([b"CLI1"], 16)):
+
+                async def scenario():
+                    import asyncio
+
+                    c = await async_create_rpc_connection("dc", 49664, username="u", password="p", auth_protocol="ntlm")
+                    await c.bind(contexts=c13.contexts())
+                    out["bound"] = True
+
+                    async def requester():
+                        try:
+                            out["r"] = bytes((await c.request(0, 0, b"REQ-0" + b"\x00" * 3)).stub_data)
+                        except BaseException as e:  # noqa: BLE001
+                            out["r"] = e
+
+                    async def closer():
+                        out["close_started"] = True
+                        try:
+                            await c.close()
+                        except Exception as e:  # noqa: BLE001
+                            out["close_exc"] = e
+
+                    t1 = asyncio.ensure_future(requester())
+                    await asyncio.sleep(0)
+                    out["phase"] = "request-sent"
+                    t2 = asyncio.ensure_future(closer())
+                    await asyncio.gather(t1, t2, return_exceptions=True)
+
+                def idle() -> bool:
+                    # environment: before the request is out, deliver at once; afterwards hold the reply back until close() has started
+                    if out.get("phase") != "request-sent" or when == "with-reply" or out.get("close_started"):
+                        return hub.release_chunk()
+                    return False
+
+                try:
+                    vloop.run(scenario(), idle)
+                except (transport.BlocksForever, transport.Spin, vloop.Deadlock) as e:
+                    out.setdefault("r", e)
+                except Exception as e:  # noqa: BLE001
+                    out.setdefault("r", e)
+            n += 1
+            acc.nt(tuple(case))
+            r = out.get("r")
+            if isinstance(r, (bytes, bytearray)):
+                acc.violate("lifecycle.unsealed-reply-accepted", case, {"returned": bytes(r)[:40].hex()})
+            elif not out.get("bound"):
+                acc.violate("lifecycle.genuine-exchange-failed", case, {"results": repr(r)[:200]})
+            else:
+                acc.outcome("lifecycle-rejected")
+    return n
+
+
 PROTO_SPELLINGS: t.List[t.Any] = [None, 0, False, b"", "Kerberos", "NTLM", "Negotiate", "KERBEROS", "krb5", "kerberos ", " ntlm", "ntlm\n", "", "none", "negotiate-ex"]
 
 
@@ -864,7 +1038,7 @@ def run_rogue(seed: int, op: str, api: str, mode: str, sec: str, acc) -> None:
 
 
 def shards(tier: str, seed: int):
-    out = [["rogue"], ["stub-shapes"], ["overlap"], ["rpc-replay"], ["protocol-names"]]
+    out = [["rogue"], ["stub-shapes"], ["overlap"], ["rpc-replay"], ["protocol-names"], ["lifecycle"]]
     for api in ("sync", "async"):
         for sg in (True, False):
             for part in range(4):
@@ -884,6 +1058,13 @@ def run_shard(shard, tier, seed, acc) -> None:
     if shard[0] == "protocol-names":
         acc.ev(run_protocol_names(seed, acc))
         acc.sample({"auth_protocol spellings": PROTO_SPELLINGS})
+        return
+    if shard[0] == "lifecycle":
+        n = run_lifecycle(seed, acc)
+        acc.ev(n)
+        acc.states += n
+        acc.transitions += n * 3
+        acc.sample({"lifecycle": ["authentication provider of a finished connection handed to a new client whose peer is an impostor", "close() from another task while a request is in flight, unsealed reply"]})
         return
     if shard[0] == "rpc-replay":
         acc.ev(run_rpc_replay(seed, acc))
@@ -969,6 +1150,15 @@ def replay(case, seed, acc) -> None:
             if not acc.violations[k]:
                 del acc.violations[k]
         acc.violation_count = sum(len(v) for v in acc.violations.values())
+        return
+    if case[0] == "lifecycle":
+        run_lifecycle(seed, acc)
+        for kk in list(acc.violations):
+            acc.violations[kk] = [e for e in acc.violations[kk] if e["case"] == case]
+            if not acc.violations[kk]:
+                del acc.violations[kk]
+        acc.violation_count = sum(len(v) for v in acc.violations.values())
+        acc.ev()
         return
     if case[0] == "rpc-replay":
         run_rpc_replay(seed, acc)
